@@ -125,7 +125,15 @@ def run(ctx):
         if s not in seen:
             seen.add(s)
             msgu.append(h)
-    hs = short_run + full + rand + msgu
+    # directed: the histories of the repaired findings, and an accepted shm client that rewrites the length word of its
+    # request while msg_process runs on it (0, small, larger than the ring, near 2^32, negative), then sends on
+    directed = [[ln.split() for ln in REPRO[k]] for k in sorted(REPRO)]
+    head = [x % 8192 if "%d" in x else x for x in HEAD]
+    for word in (0, 1, 3, 4096, 70000, 2147483632, -16, -1):
+        for fill in (0, 1):
+            directed.append([ln.split() for ln in ["Up 1 0"] + head + ["RewriteNext 1 %d %d" % (word, fill), "Send 1 2 64 5 64 1 0",
+                                                   "Send 1 3 32 5 32 1 0", "Send 1 4 16 5 16 1 0"] + TAIL])
+    hs = short_run + full + rand + msgu + directed
     ctx.sample({"short_prefix": to_lines(short_run[len(short_run) // 2])})
     ctx.sample({"complete_record": to_lines(full[len(full) // 3])})
     ctx.sample({"raw_request": to_lines(msgu[len(msgu) // 2])})
